@@ -678,6 +678,12 @@ func (env *Env) callExpr(e *CExpr) CVal {
 		sl := b.Ty.Underlying().(*types.Slice)
 		arr := env.stateOf(b).arr(sl.Elem(), Acc("sbase", b.T))
 		return CVal{T: UF("str_of_bytes", SStr, arr, Acc("soff", b.T), Acc("slen", b.T)), Ty: types.Typ[types.String]}
+	case "addr": // pointer to an lvalue
+		v := arg(0)
+		if v.Addr == nil {
+			env.fail("addr() of a non-lvalue")
+		}
+		return CVal{T: v.Addr, Ty: types.NewPointer(v.Ty)}
 	case "fid":
 		f := env.force(arg(0))
 		return CVal{T: Acc("fid", f.T)}
